@@ -97,8 +97,8 @@ func buildTree(par []int, aliasMask, optMask, clash int, sameName bool, exec boo
 		}
 		c := &decl.Cmd{Field: "C" + strings.ToUpper(string(letters[i])), Name: name, Exec: exec,
 			Opts: []*decl.Opt{{Field: "F", Short: flagLetter[i], Long: "flag" + string(letters[i]), Type: decl.TBools}}}
-		if aliasMask&(1<<uint(i)) != 0 {
-			c.Aliases = []string{"x" + string(letters[i])}
+		if aliasMask&(1<<uint(i)) != 0 || (variant == 1 && i == 0) {
+			c.Aliases = []string{"x" + string(letters[i])} // (under PassAfterNonOption the first command always has an alias: alias and name stop the pass-through alike)
 		}
 		c.SubOptional = optMask&(1<<uint(i+1)) != 0
 		c.Hidden = hiddenMask&(1<<uint(i)) != 0 // a hidden command is selected, scoped and required like any other
